@@ -32,6 +32,25 @@ CLAIMED = {
         'Cross-distribution distinctness rests on NumPy SeedSequence (checked on the logged states, not proved).',
    technique='Coq invariant proof over operation histories + exact recomputation of logged generator states in Coq',
    design='5 C04'),
+ 'C08': dict(
+   text='Coq theorems for every module set and every family of per-module time vectors: the plan is a permutation of functions x own time points '
+        '(each method exactly once per own time point, nothing else), sorted by the generated step-order key, phase order within an instant, time order '
+        'across instants under the gap hypothesis forced by the float key (refutation witness without it), the CLOCK theorem (at the row scheduled for '
+        'the k-th own time point the module clock reads k) and final clocks. Phase list / chain order / sort key / eps regenerated from loop.py, sim.py, '
+        'settings.py. The model plan and clock trace are compared row by row with sim.loop.plan and a single-stepped real run.',
+   note='Trusted: Coq kernel, translator (collect_funcs parsed into phases_gen; shape pins on make_plan/__iadd__/finish_step/Loop.run/Sim.run), harness. '
+        'pandas sort_values is modelled by a stable insertion sort (differences only for equal keys). All theorems closed under the global context.',
+   technique='Coq proofs about the sorted-cross-product plan (permutation, sortedness, clock counting argument) + in-Coq differential evaluation',
+   design='5 C08'),
+ 'C09': dict(
+   text='Coq theorems for an arbitrary step function: resume composition for any number of pauses at any boundaries, independence of copy and original, '
+        'AlreadyRun guards, scaling applied at most once over any sequence of run/finalize calls; stop-index semantics of run(until) compared with the '
+        'implementation. The proviso of the theorems (restored state = taken state) is tested on the real object graph by a boundary sweep x '
+        '{none, deepcopy, pickle, save/load} x single/double pauses with exact comparison to an uninterrupted twin.',
+   note='Trusted: Coq kernel, translator pins on Loop.run/Sim.run/finalize, harness. Fidelity of deepcopy/pickle/save-load of the Python object graph is NOT proved '
+        '(it is what the sweep tests); configurations using the process-global NumPy generator (Births) are excluded here and covered by C01.',
+   technique='Coq resume-algebra proof over an abstract step function + exhaustive boundary/restore-mode sweep against the real sim',
+   design='5 C09'),
 }
 
 checks = []
